@@ -273,7 +273,13 @@ def rule_const(prop, repo):
     svals = repo.static_values()
     for nm, i in named.items():
         if nm in svals:
-            chk(nm.split("::")[-1], svals[nm]["int"], alpha[i], "(-2)^(%d(q-1)/12) mod q" % i)
+            val = svals[nm]["int"]
+            if val is None:
+                # a constant defined as a copy of another one (`static ref A: U256 = *B;`)
+                other = repo.static_of(svals[nm].get("term") or ("unknown",))
+                if other in svals:
+                    val = svals[other]["int"]
+            chk(nm.split("::")[-1], val, alpha[i], "(-2)^(%d(q-1)/12) mod q" % i)
     # any other literal U256 static must be one of the values above (a new, unexplained constant fails closed)
     known_vals = {alpha[i] for i in alpha} | {q, r, pow(2, 512, q), pow(2, 512, r), pow(2, 256, q), pow(2, 256, r)}
     for nm, sv in svals.items():
